@@ -480,9 +480,17 @@ def build():
         n0, n1, s0, s1, sz, ptr = (INT.fresh(ctx, x) for x in ("n0", "n1", "s0", "s1", "itemsize", "data"))
         t = lambda v: v.term
         ctx.assume(z3.And(t(n0) >= 1, t(n1) >= 1, t(sz) >= 1, t(ptr) >= 0, t(s0) != 0, t(s1) != 0))
-        # domain restriction (stated in the evidence): strides are multiples of the item size - no field views of structured memmaps
+        # strides: either multiples of the item size (k0, k1: the usual views) or not (field views of packed structured memmaps: element
+        # addresses that are not aligned to the item size)
         k0, k1 = z3.Int(ctx.fresh_name("k0")), z3.Int(ctx.fresh_name("k1"))
-        ctx.assume(z3.And(t(s0) == k0 * t(sz), t(s1) == k1 * t(sz)))
+        if ctx.choose(2, "strides-multiples-of-itemsize") == 0:
+            ctx.assume(z3.And(t(s0) == k0 * t(sz), t(s1) == k1 * t(sz)))
+            # arithmetic lemma instance (k * m) % m == 0 for m >= 1, given to the solver to keep the queries linear
+            ctx.assume(z3.And(t(s0) % t(sz) == 0, t(s1) % t(sz) == 0))
+            ctx.ghost["ALIGNED_STRIDES"] = True
+        else:
+            ctx.assume(z3.Or(t(s0) % t(sz) != 0, t(s1) % t(sz) != 0))
+            ctx.ghost["ALIGNED_STRIDES"] = False
         ctx.ghost["K01"] = (k0, k1)
         cc = z3.And(z3.Or(t(n1) == 1, t(s1) == t(sz)), z3.Or(t(n0) == 1, t(s0) == t(n1) * t(sz)))
         fc = z3.And(z3.Or(t(n0) == 1, t(s0) == t(sz)), z3.Or(t(n1) == 1, t(s1) == t(n0) * t(sz)))
@@ -679,7 +687,7 @@ def build():
     p.add(Contract(
         MR, "ArrayMemmapForwardReducer.__call__", props=["C19", "C20"], globals=fglob, setup=fwd_setup, inline={"_temp_folder"},
         params=dict(self=ObjOf("ArrayMemmapForwardReducer", _max_nbytes=Opt(INT), _temp_folder_resolver=OpaqueOf("resolver"), _memmaped_arrays=OpaqueOf("weakmap"),
-                               _temporary_memmaped_filenames=OpaqueOf("nameset"), _unlink_on_gc_collect=BOOL, _prewarm=BOOL, _mmap_mode=OneOf("r", "r+", "w+", "c")),
+                               _temporary_memmaped_filenames=OpaqueOf("nameset"), _unlink_on_gc_collect=BOOL, _prewarm=BOOL, _mmap_mode=OneOf(None, "r", "r+", "w+", "c")),
                     a=lambda i: Opaque("bigarray", None, dtype=Opaque("dtype", None, hasobject=BOOL.fresh(i.ctx, "hasobject")), nbytes=INT.fresh(i.ctx, "nbytes"), shape=Opaque("shape", None))),
         ensures={},
         ensures_body={
@@ -687,8 +695,11 @@ def build():
             "memmap_backed_arrays_are_reduced_as_views_of_their_file": "implies(n_events('_reduce_memmap_backed') == 1, is_tag(result, 'reduced-as-view-of-its-file') and not memmapped() and n_events('dumps') == 0)",
             # C19: the threshold - arrays larger than max_nbytes become temporary memmaps, smaller ones, arrays holding Python objects and everything
             # when max_nbytes is None never do (the boundary nbytes == max_nbytes is left open: the documentation does not fix it)
-            "above_the_threshold_means_memmapped": "implies(n_events('_reduce_memmap_backed') == 0 and not a.dtype.hasobject and self._max_nbytes is not None and a.nbytes > self._max_nbytes, memmapped())",
+            "above_the_threshold_means_memmapped": "implies(n_events('_reduce_memmap_backed') == 0 and not a.dtype.hasobject and self._max_nbytes is not None and a.nbytes > self._max_nbytes "
+                                                   "and self._mmap_mode is not None, memmapped())",
             "never_memmapped_below_the_threshold_or_with_objects": "implies(memmapped(), not a.dtype.hasobject and self._max_nbytes is not None and a.nbytes >= self._max_nbytes)",
+            # Parallel documents mmap_mode=None as "disable memmapping": the array then travels by value (a worker cannot map a file in no mode)
+            "mmap_mode_none_disables_memmapping": "implies(self._mmap_mode is None, not memmapped())",
             "small_arrays_travel_by_value": "implies(n_events('_reduce_memmap_backed') == 0 and not memmapped(), n_events('dumps') == 1 and ev_named('dumps')[0][1] is a and is_tag(result[0], 'loads-function'))",
             "large_arrays_travel_as_a_file_name": "implies(memmapped(), is_tag(result[0], 'load_temporary_memmap-function') and result[1][1] is self._mmap_mode and result[1][2] is self._unlink_on_gc_collect "
                                                   "and result[1][0] is ev_named('remember-file')[0][1])",
